@@ -578,6 +578,10 @@ def emitPhys (i : Img) (tagNs : String) (phys : Array Phys) (decodeName : List U
     let hidden := p.flags % 2 = 1
     if p.isDir then
       entry s!"{tagNs}:D:{pathStr path}:h{if hidden then 1 else 0}"
+    else if p.rr.cl.isSome then
+      -- RRIP 4.1.5.1: the placeholder of a relocated directory; its own extent and length mean nothing, CL names the
+      -- real directory (resolved, and checked against RE / PL, by emitRR)
+      entry s!"{tagNs}:P:{pathStr path}"
     else
       if p.len > 0 then
         if !(i.inRange (p.extent * 2048) p.len) then err s!"file-outside-image:{tagNs}{pathStr path}"
